@@ -97,6 +97,62 @@ def gen_programs(ctx, kinds, tier):
     return progs, n
 
 
+# --------------------------------------------------------------------------- seeded programs (same schema as MC_Resolve's)
+def probe_list(rng, n, lay, k=10):
+    if n == 0:
+        return [] if lay == "ends" else [1]
+    ranks = {0, n - 1} | {rng.randrange(n) for _ in range(k)}
+    s = {a for r in ranks for a in (2 * r - 1, 2 * r, 2 * r + 1) if 0 <= a <= 2 * n - 1 and not (lay == "ends" and a == 2 * n - 1)}
+    out = sorted(s)
+    rng.shuffle(out)
+    return out
+
+
+def random_programs(ctx, count):
+    """Populations that are NOT page boundaries: random sizes up to three pages, random configuration."""
+    rng = random.Random(ctx.seed * 7919 + 3)
+    lays, ords, vps = ["spread", "prefix", "ends"], ["asc", "desc", "rot"], ["lo", "hi"]
+    progs = []
+    for i in range(count):
+        kind = ALL_KINDS[i % len(ALL_KINDS)]
+        lay, ord_, vp = rng.choice(lays), rng.choice(ords), rng.choice(vps)
+        if kind == "aidx":
+            ks, ow = rng.randint(1, 16), rng.choice([4, 5, 6])
+            cap = 4096 // (ks + 4 + ow)
+            n = min(rng.randint(0, 3 * cap), 128 if ks == 1 else 32768)
+            p = {"kind": kind, "ks": ks, "ow": ow, "n": n, "lay": lay, "vp": vp, "ord": ord_,
+                 "ser": rng.choice(["builder", "builder", "build"]), "probes": probe_list(rng, n, lay)}
+        elif kind == "agroup":
+            n = rng.randint(0, 700)
+            path = rng.choice(["builder", "merged"])
+            p = {"kind": kind, "n": n, "srcs": rng.randint(1, 5), "path": path, "lay": lay, "vp": vp, "ord": ord_,
+                 "probes": probe_list(rng, n, lay)}
+        elif kind == "enc":
+            kbc, kbe, nek = rng.choice([1, 2, 4]), rng.choice([1, 2, 4]), rng.choice([1, 1, 2, 3, 5])
+            n = rng.randint(0, 3 * (1024 * kbc // (22 + 16 * nek)))
+            m = rng.randint(0, 3 * (1024 * kbe // 25))
+            p = {"kind": kind, "kbc": kbc, "kbe": kbe, "nek": nek, "n": n, "m": m, "lay": lay, "vp": vp, "ord": ord_,
+                 "ser": rng.choice(["raw", "raw", "blte"]), "probes": probe_list(rng, n, lay), "eprobes": probe_list(rng, m, lay)}
+        elif kind in ("root", "chain"):
+            n = rng.randint(0 if kind == "root" else 1, 260)
+            rl = rng.choice(["dense", "gap", "ends"])
+            p = {"kind": kind, "ver": rng.randint(1, 4), "n": n, "named": n if kind == "chain" else rng.randint(0, n), "lay": rl,
+                 "blocks": rng.choice([1, 2]), "style": rng.choice(["norm", "raw"]), "ord": ord_, "probes": probe_list(rng, n, rl)}
+            if kind == "chain":
+                p.update({"vp": vp, "kbc": rng.choice([1, 4]), "kbe": 1})
+        else:
+            n = rng.randint(0, 400)
+            nest = rng.choice([0, 0, 3, 9])
+            flags = rng.randint(0, 7)
+            p = {"kind": kind, "flags": flags, "shape": rng.choice(["flat", "deep", "wide", "pfx", "sep"]), "n": n,
+                 "namelen": rng.choice([0, 0, 0, 40, 254]), "nest": nest if flags & 2 else 0,
+                 "estlen": rng.randint(7, 30) if (flags & 2 and nest) else 0, "ord": ord_, "probes": probe_list(rng, n, "flat")}
+        progs.append(p)
+    path = ctx.path("programs_random.ndjson")
+    open(path, "w").write("\n".join(json.dumps(p, separators=(",", ":")) for p in progs) + "\n")
+    return path, len(progs)
+
+
 def write_tcfg(ctx, kd):
     cfg = ctx.path("t_resolve.cfg")
     lib.write_cfg(cfg, {"KnownDeviations": lib.tla_set(kd), "Defects": "{}"}, "TInit", "TNext", invariants=["Done"])
@@ -119,8 +175,8 @@ def judge_trace(ctx, trace, source, kd, totals):
     return v
 
 
-def execute(ctx, progs, n, source, kd, totals):
-    trace = ctx.path("trace.ndjson")
+def execute(ctx, progs, n, source, kd, totals, name="trace"):
+    trace = ctx.path(f"{name}.ndjson")
     d = lib.run_sharded(ctx, DRV, progs, trace, shards=min(lib.NCPU, 12), timeout=1500)
     ctx.stage("run", source=source, programs=d.get("programs"), events=d.get("events"), hangs=d.get("hangs"), wall_s=d["wall_s"])
     if d.get("programs") != n:
@@ -224,8 +280,11 @@ def run(ctx):
         s, e = lib.run_of_line(ls, max(1, int(len(ls) * frac)))
         ctx.cov["samples"].append({"source": f"MC_Resolve tier={tier}", "trace": [slim(json.loads(x)) for x in ls[s:e]][:6]})
     selftest(ctx, trace, kd)
-    if totals.get("runs") != n:
-        raise lib.ToolError(f"monitor saw {totals.get('runs')} runs for {n} programs")
+    rprogs, rn = random_programs(ctx, 300 if ctx.quick else 4000)
+    _, rdistinct = lib.count_distinct(rprogs)
+    execute(ctx, rprogs, rn, f"seeded seed={ctx.seed}", kd, totals, name="trace_random")
+    if totals.get("runs") != n + rn:
+        raise lib.ToolError(f"monitor saw {totals.get('runs')} runs for {n + rn} programs")
     if not totals.get("hits") or totals.get("hits") == totals.get("lookups"):
         raise lib.ToolError("vacuous run: positive and negative probes must both occur")
     ctx.cov["programs_by_kind"] = per_kind
@@ -234,7 +293,9 @@ def run(ctx):
     ctx.cov["present_key_probes"] = totals.get("hits", 0)
     ctx.cov["absent_key_probes"] = totals.get("lookups", 0) - totals.get("hits", 0)
     ctx.cov["refused_builds"] = totals.get("refusals", 0)
-    ctx.cov["traces_validated_against_impl"] = n
+    ctx.cov["traces_validated_against_impl"] = n + rn
+    ctx.cov["programs_enumerated_by_tlc"] = n
+    ctx.cov["programs_seeded"] = rn
     ctx.cov["evaluations"] = totals.get("flavours", 0)
     ctx.cov["distinct_nontrivial"] = min(distinct, nontrivial)
     ctx.cov["exhaustive"] = True
